@@ -3,7 +3,7 @@ import BronVerif.Model.Joint
 /-! Driver handlers for C07 (paired runs: which messages / joint values change when one party's
     random stream is replaced).  Line formats: see harness/c07.go. -/
 namespace BronVerif.Drive.C07
-open BronVerif BronVerif.Drive BronVerif.Joint
+open BronVerif BronVerif.Drive BronVerif.Joint BronVerif.Draws
 
 /-- `key=value` argument -/
 def argVal (args : List String) (key : String) : Option String :=
@@ -99,6 +99,66 @@ def handleSeq (rhs : String) : Verdict :=
     else .ok
   | _, _ => .unsupported "C07 seq: malformed result"
 
+/-- `<id>=<step>/<step>/…` for every party: the reads of every executed step against the consumption
+    specification.  Fewer bytes than the entropy of the step's secrets is a violation of the property;
+    any other difference from the mirrored multiset is a correspondence failure. -/
+def handleDraws (name cfg : String) (ids : List Nat) (d : Nat) (rhs : String) : Verdict :=
+  match lookup name cfg ids with
+  | none => .unsupported ("C07 protocol " ++ name)
+  | some spec =>
+    let got := parseFlags rhs
+    if got.map (·.1) != ids.map toString then .diff ("parties=" ++ joinComma (ids.map toString)) else
+    combine ((ids.zip got).flatMap fun (id, g) =>
+      let need := spec.need d id
+      let steps := g.2.splitOn "/"
+      if need.isEmpty then [some (.unsupported s!"C07 draws: no consumption table for {name}")] else
+      if need.length != steps.length then [some (.diff s!"{id}: {need.length} steps")] else
+      (need.zip steps).zipIdx.map fun ((n, st), k) =>
+        match Obs.parse? st with
+        | none => some (.unsupported ("C07 draws: step " ++ st))
+        | some obs =>
+          match judgeStep (n.draws (spec.peers id)) obs with
+          | .ok => none
+          | .below m o => some (.bad "draws-below-secrets"
+              s!"party {id} step {k} reads {o} bytes from its stream but the secrets of that step ({";".intercalate ((n.draws (spec.peers id)).filterMap fun x => if x.min == 0 || x.count == 0 then none else some s!"{x.count}x {x.what}")}) need at least {m}")
+          | .differs e => some (.diff s!"{id}/step{k}={e}"))
+
+def leafAllowed (allow : List String) (leaf : String) : Bool :=
+  allow.any fun a => if a.endsWith "*" then leaf.startsWith (a.dropEnd 1).toString else a == leaf
+
+/-- per-recipient material of one sender and round: a long leaf value sent to two recipients (or twice
+    to one) although the table does not list its pattern as shared -/
+def handlePercpt (name cfg : String) (ids : List Nat) (rhs : String) : Verdict :=
+  match lookup name cfg ids, rhsVal rhs "groups", rhsVal rhs "leaves", rhsVal rhs "repeats" with
+  | some spec, some groups, some leaves, some reps =>
+    let bad := (splitComma reps).filter fun r =>
+      let body := if r.startsWith "dup:" then (r.drop 4).toString else r
+      match body.splitOn ":" with
+      | [_, pat] => !spec.sharedLeaves.contains pat
+      | _ => true
+    if !bad.isEmpty then
+      .bad "per-recipient-secret-repeat" ("the same value is sent to different recipients (or twice) where every recipient must get its own independent secret: " ++ joinComma bad)
+    else if groups.toNat?.getD 0 == 0 || leaves.toNat?.getD 0 == 0 then .diff "groups>0 leaves>0"
+    else .ok
+  | none, _, _, _ => .unsupported ("C07 protocol " ++ name)
+  | _, _, _, _ => .unsupported "C07 percpt: malformed result"
+
+/-- the changed party's own long leaves that kept their value although its stream was replaced -/
+def handleLeaf (name cfg : String) (ids : List Nat) (c : Nat) (rhs : String) : Verdict :=
+  match lookup name cfg ids, rhsVal rhs "leaves", rhsVal rhs "same" with
+  | some spec, some leaves, some same =>
+    let items := splitComma same
+    let bad := items.filter fun it => !it.startsWith "more:" && !leafAllowed spec.publicLeaves it
+    if !bad.isEmpty then
+      .bad "secret-leaf-unchanged" (s!"values in party {c}'s own messages do not change although its random stream was replaced: " ++ joinComma bad)
+    else if items.any (·.startsWith "more:") then .diff "same=(short list)"
+    else
+      -- non-vacuity: a party whose table has a randomised message must have had leaves compared
+      let sends := (slots ids spec.rounds).any fun s => s.from_ == c && s.dep.usesOwn
+      if sends && leaves.toNat?.getD 0 == 0 then .diff "leaves>0" else .ok
+  | none, _, _ => .unsupported ("C07 protocol " ++ name)
+  | _, _, _ => .unsupported "C07 leaf: malformed result"
+
 def handle (op : String) (args : List String) (rhs : String) : Verdict :=
   match args with
   | name :: cfg :: rest =>
@@ -112,6 +172,15 @@ def handle (op : String) (args : List String) (rhs : String) : Verdict :=
         | none => .unsupported "C07 pair: changed"
       | "det" => handleDet name cfg ids rhs
       | "reads" => handleReads name cfg ids rhs
+      | "draws" =>
+        match (argVal rest "d").bind String.toNat? with
+        | some d => handleDraws name cfg ids d rhs
+        | none => .unsupported "C07 draws: d"
+      | "percpt" => handlePercpt name cfg ids rhs
+      | "leaf" =>
+        match (argVal rest "changed").bind String.toNat? with
+        | some c => handleLeaf name cfg ids c rhs
+        | none => .unsupported "C07 leaf: changed"
       | "seq" => handleSeq rhs
       | _ => .unsupported ("C07 op " ++ op)
   | _ => .unsupported ("C07 op " ++ op)
